@@ -2,6 +2,7 @@
 From Coq Require Import List NArith Bool Arith.
 Import ListNotations.
 From Grip Require Import Model.KVGraph Proofs.KVGraphProofs.
+From Grip Require Model.Bytes Model.Keys Proofs.KeysProofs.
 
 (* a reopened database is indistinguishable, on every later history, from one that never stopped
    (this is where the reload of the indexed-field registry matters: elem_writes consults it) *)
@@ -31,6 +32,20 @@ Proof.
   destruct H as [H _ _ _]. vm_compute in H. discriminate.
 Qed.
 Print Assumptions C04_crash_full_refuted.
+
+(* The same consistency, on the bytes of a real store (graphs beyond the small universe of the histories): the check the
+   correspondence runs on every key of a store reopened after a crash, Model/Keys.v keys_consistent, means for NUL-free
+   components (all that validation admits) that every edge record has both adjacency entries and every entry its record *)
+Theorem C04_key_check_edge : forall ks g e s d l, Keys.nonul g && Keys.nonul e && Keys.nonul s && Keys.nonul d && Keys.nonul l = true ->
+  Keys.keys_consistent ks = true -> In (Keys.edge_key g e s d l) ks ->
+  In (Keys.src_key g s d e l) ks /\ In (Keys.dst_key g s d e l) ks.
+Proof. exact KeysProofs.key_check_edge. Qed.
+Print Assumptions C04_key_check_edge.
+Theorem C04_key_check_entry : forall ks g e s d l, Keys.nonul g && Keys.nonul s && Keys.nonul d && Keys.nonul e && Keys.nonul l = true ->
+  Keys.keys_consistent ks = true ->
+  (In (Keys.src_key g s d e l) ks -> In (Keys.edge_key g e s d l) ks) /\ (In (Keys.dst_key g s d e l) ks -> In (Keys.edge_key g e s d l) ks).
+Proof. exact KeysProofs.key_check_entry. Qed.
+Print Assumptions C04_key_check_entry.
 
 Example C04_nonvacuous :
   kv (crash (run [OAddGraph 1; OAddEdge 1 1 1 2 1 0]%N) (ODelEdge 1 1)%N 0) = kv (run [OAddGraph 1; OAddEdge 1 1 1 2 1 0]%N)
